@@ -46,11 +46,13 @@ def run(ctx):
             ctx.corr_broken.append("model Wire and messages.go disagree on case %d (%s): %s" %
                                    (m, c.get("kind"), json.dumps(c.get("in"))[:700]))
     need = ["read:ok", "read:eof", "read:unexpected-eof", "read:other", "read:wellformed-caps-only",
-            "read:wellformed-shorter-than-37", "update:error", "update:nh16", "withdraw:over4096", "open", "keepalive",
-            "sess:cap-flip-on-off", "sess:cap-flip-off-on", "sess:capflip-ebgp-updates-after-flip", "sess:hold=0", "sess:hold=nil"] + \
+            "read:wellformed-shorter-than-37", "update:error", "update:nh16", "withdraw:815-prefix-case", "open", "keepalive",
+            "sess:cap-flip-on-off", "sess:cap-flip-off-on", "sess:capflip-ebgp-updates-after-flip", "sess:hold=0", "sess:hold=nil", "sess:source-address-16-byte-form", "sess:source-address-4-byte-form"] + \
            ["update:len%%8=%d" % k for k in range(8)]
-    if cases and any(stats.get(k, 0) == 0 for k in need):
-        raise Exception("generator degenerate: %r" % stats)
+    # a counter that is zero BECAUSE the implementation misbehaves must not mask the finding:
+    # the generator is judged only when nothing else was found
+    if cases and any(stats.get(k, 0) == 0 for k in need) and not ctx.violations and not ctx.corr_broken and not mism:
+        raise Exception("generator degenerate: %r" % sorted(k for k in need if stats.get(k, 0) == 0))
 
     def search():
         for k in range(3):
